@@ -1298,8 +1298,41 @@ impl<G: ParRig> Hist<G> {
         }
     }
 
-    /// After clone / clone_from: dumps must not share any address (C10 independence).
+    /// After clone / clone_from: the copy must hold the source's entities, identifiers, values and
+    /// resources (C10), checked here so that it is charged to C10 rather than to the generic
+    /// post-op oracles; and the dumps must not share any address (independence).
     fn check_independent(&mut self, a: usize, b: usize, op: &Op) {
+        {
+            let sb = self.slots[b].as_mut().unwrap();
+            let rows = G::snapshot(&mut sb.world);
+            let mut errs: Vec<(&'static str, String)> = Vec::new();
+            if let Err(e) = sb.model.compare_snapshot(&rows) {
+                errs.push(("clone_content_differs", format!("the copy does not hold the source's entities / values: {e}")));
+            }
+            if sb.world.len() != sb.model.len() {
+                errs.push(("clone_content_differs", format!("the copy's len() is {} but the source holds {} entities", sb.world.len(), sb.model.len())));
+            }
+            let ids: Vec<(IdP, bool)> = sb.model.issued.iter().map(|(k, v)| (*k, *v)).collect();
+            for (p, live) in ids.iter().take(600) {
+                if sb.world.contains(ident(*p)) != *live {
+                    errs.push((
+                        "clone_identifiers_differ",
+                        if *live { format!("identifier {p:?} is live in the source but not accepted by the copy") } else { format!("identifier {p:?} is dead in the source but accepted by the copy") },
+                    ));
+                    break;
+                }
+            }
+            let res = G::res_get(&sb.world);
+            for (r, o) in res.iter().enumerate() {
+                if o.val != sb.model.res[r] {
+                    errs.push(("clone_resources_differ", format!("resource {r} of the copy is {:#x}, the source has {:#x}", o.val, sb.model.res[r])));
+                    break;
+                }
+            }
+            for (sig, msg) in errs {
+                self.viol("C10", sig, msg, op);
+            }
+        }
         let (da, db) = (self.slots[a].as_ref().unwrap().world.verif_dump(), self.slots[b].as_ref().unwrap().world.verif_dump());
         let addrs = |d: &brood::verif::Dump| -> BTreeSet<usize> {
             let mut s = BTreeSet::new();
